@@ -213,7 +213,7 @@ func judgeC20(e *Env, c *C20Case, tag string, run int64) (*c20Obs, error) {
 		if err != nil {
 			return nil, err
 		}
-		if o.Crash != "" || o.StepsOut || o.CPUOut {
+		if o.Crash != "" || o.StepsOut || o.CPUOut || o.Blocked {
 			return obs, nil // C08's subject
 		}
 		if o.Status == 0 {
@@ -233,7 +233,7 @@ func judgeC20(e *Env, c *C20Case, tag string, run int64) (*c20Obs, error) {
 	}
 	obs.Outcome = trimOutcome(out)
 	obs.Fired = c.Fault != "" && (out.Injected > 0 || !(strings.HasPrefix(c.Fault, "openat") || c.Fault == "read-EIO"))
-	if out.Crash != "" || out.StepsOut || out.CPUOut {
+	if out.Crash != "" || out.StepsOut || out.CPUOut || out.Blocked {
 		return obs, nil
 	}
 	rec := filepath.Join(root, "rec")
